@@ -99,6 +99,7 @@ def _split_top(s, sep=","):
 
 
 _tycache = {}
+TYPE_ALIAS_HOOKS = []
 
 
 def parse_type(s):
@@ -155,6 +156,10 @@ def _parse_type(s):
             s = s[len(pre):]
     if s in BUILTIN:
         return Ty("builtin", name=s, const=const)
+    for hook in TYPE_ALIAS_HOOKS:
+        al = hook(s)
+        if al is not None:
+            return al
     return Ty("rec", name=s, const=const)  # record or enum; resolved by the emitter
 
 
@@ -289,6 +294,8 @@ class Translator:
         if k == "builtin":
             return (c + BUILTIN[ty.name] + " " + name).rstrip()
         if k == "rec":
+            if ty.name == "verif_ctrl":
+                return ("verif_ctrl " + name).rstrip()
             if ty.name in self.ast.Rname:
                 self.need_record(ty.name)
                 return (c + self.record_cname(ty.name) + " " + name).rstrip()
@@ -334,6 +341,14 @@ class Translator:
         node = self.ast.nodes.get(rid)
         info = self.ast.R[rid]
         fields = []
+        if node is None or canon.startswith("std::"):
+            mf = self.model_record_fields(canon)
+            if mf is not None:
+                texts = [self.cdecl(self.lower(ft), fn) + ";" for (fn, ft) in mf]
+                self.rec_defs[cname] = texts
+                self.rec_info[cname] = dict(canon=canon, fields=[(fn, ft, None) for (fn, ft) in mf], size=0, align=0, tab=info, model=True)
+                self._rec_inprogress.discard(cname)
+                return cname
         if node is None:
             if canon in self.opts.get("model_records", {}):
                 self.rec_defs[cname] = self.opts["model_records"][canon]
@@ -370,16 +385,19 @@ class Translator:
         self._rec_inprogress.discard(cname)
         return cname
 
+    def model_record_fields(self, canon):
+        return None
+
     def _canon_of_base(self, b):
         t = b["type"]
         s = t.get("desugaredQualType") or t["qualType"]
         # base types are printed as written; resolve via record table by suffix match
         if s in self.ast.Rname:
             return s
-        for nm in self.ast.Rname:
-            if nm.endswith("::" + s) or nm == s:
-                return nm
-        raise ExtractionBreak("cannot resolve base type '%s'" % s)
+        cands = [nm for nm in self.ast.Rname if nm.endswith("::" + s) or nm == s]
+        if len(cands) == 1:
+            return cands[0]
+        raise ExtractionBreak("cannot resolve base type '%s' (%d candidates)" % (s, len(cands)))
 
     # ------------------------------------------------------------ function naming
     def func_cname(self, fid):
@@ -550,6 +568,24 @@ class Translator:
         f.body = temps + stmts
         return f
 
+    def flush_temp_dtors(self):
+        """destructor calls for temporaries of the full-expression just translated (reverse order of creation)"""
+        out = []
+        td = getattr(self, "temp_dtors", [])
+        while td:
+            (t, dfn) = td.pop()
+            out.append(X("expr", X("call", dfn, [addr(t)])))
+        return out
+
+    def register_temp_dtor(self, t, dtor_id, ty):
+        dfn = self.request_dtor(dtor_id, ty)
+        if dfn:
+            self.cur.calls[dfn] = True
+            if not hasattr(self, "temp_dtors"):
+                self.temp_dtors = []
+            self.temp_dtors.append((t, dfn))
+            self.rule("temporary-dtor")
+
     def rule(self, r, n=1):
         self.cur.rules[r] = self.cur.rules.get(r, 0) + n
 
@@ -617,9 +653,7 @@ class Translator:
             src = e["inner"][0]
             s2 = src
             while s2.get("kind") in ("MaterializeTemporaryExpr", "ImplicitCastExpr", "CXXBindTemporaryExpr") and (s2.get("kind") != "ImplicitCastExpr" or s2.get("castKind") == "NoOp"):
-                if s2["kind"] == "CXXBindTemporaryExpr" and "dtor" in self.ast.E.get(s2["id"], {}):
-                    pass
-                s2 = s2["inner"][0]
+                s2 = s2["inner"][0]   # (with elision the temporary IS the constructed object: no separate destructor)
             if s2.get("valueCategory") == "prvalue" and self.ast.E.get(s2.get("id"), {}).get("type") is not None:
                 self.rule("copy-elision")
                 return self.skip_wrappers(s2)
@@ -632,6 +666,9 @@ class Translator:
         cinfo = self.ast.finfo(ctor)
         args = ce.get("inner", [])
         rty = parse_type(einfo["type"])
+        m = self.model_ctor(ctor, cinfo, ptr, args, ce)
+        if m is not None:
+            return m
         if ce.get("elidable"):
             inner = self.skip_wrappers(ce)
             if inner is not ce:
@@ -654,9 +691,14 @@ class Translator:
         fn = self.request(ctor)
         cargs = [ptr] + self.call_args(ctor, args)
         self.cur.calls[fn] = True
-        out.append(X("expr", X("call", fn, cargs)))
-        out += self.exc_check()
+        out.append(X("expr", self.wrap_call(ctor, X("call", fn, cargs, ty=Ty("builtin", name="void")))))
         return out
+
+    def model_ctor(self, ctor, cinfo, ptr, args, ce):
+        return None
+
+    def wrap_call(self, fid, call):
+        return call
 
     def initlist_into(self, target, ty, e):
         out = []
@@ -701,10 +743,16 @@ class Translator:
         return out
 
     def request_dtor(self, did, ty):
-        m = self.std_model_for(did)
+        m = self.model_dtor(did, ty)
         if m is not None:
             return m
+        info = self.ast.finfo(did)
+        if "trivial" in info:
+            return None
         return self.request(did)
+
+    def model_dtor(self, did, ty):
+        return None
 
     # ------------------------------------------------------------ statements
     def stmt(self, s):
@@ -722,7 +770,7 @@ class Translator:
             self.rule("dropped:" + dropped)
             return []
         e = self.discard(s)
-        return [X("expr", e)] + self.exc_check_if_called()
+        return [X("expr", e)] + self.flush_temp_dtors()
 
     def droppable(self, s):
         return None
@@ -799,11 +847,14 @@ class Translator:
         if ty.kind == "ref":
             self.rule("ref-var")
             out.append(X("decl", lty, name, self.bind_ref(init)))
+            if getattr(self, "temp_dtors", None):
+                raise ExtractionBreak("reference bound to a temporary with a destructor (lifetime extension)")
             return out
         if ty.kind == "rec" or ty.kind == "arr":
             out.append(X("decl", lty, name, None))
             if init is not None:
                 out += self.init_object(X("var", name, ty=lty), ty, init)
+            out += self.flush_temp_dtors()
             if "dtor" in info:
                 dfn = self.request_dtor(info["dtor"], ty)
                 if dfn:
@@ -813,8 +864,7 @@ class Translator:
             return out
         e = self.rv(init) if init is not None else None
         out.append(X("decl", lty, name, e))
-        if init is not None:
-            out += self.exc_check_if_called()
+        out += self.flush_temp_dtors()
         return out
 
     def static_local(self, d, info, ty):
@@ -830,7 +880,7 @@ class Translator:
             v = self.bind_ref(e)
         else:
             v = self.rv(e)
-        chk = self.exc_check_if_called()
+        chk = self.flush_temp_dtors()
         if dt or chk:
             t = self.newtmp(self.cur.ret)
             return [X("expr", X("assign", "=", t, v))] + chk + dt + [X("return", t)]
@@ -845,7 +895,7 @@ class Translator:
         if s.get("hasVar"):
             pre += self.stmt(inner[idx]); idx += 1
         c = self.cond(inner[idx])
-        chk = self.exc_check_if_called()
+        chk = self.flush_temp_dtors()
         if chk:
             t = self.newtmp(Ty("builtin", name="bool"))
             pre += [X("expr", X("assign", "=", t, c))] + chk
@@ -873,6 +923,33 @@ class Translator:
         self.scopes.pop()
         temps = self.blockstack.pop()
         return [X("block", temps + i + [X("for", None, c, n, b, lid)])]
+
+    def s_CXXForRangeStmt(self, s):
+        inner = s["inner"]
+        # [init, range, begin, end, cond, inc, loopvar, body]
+        init, rng, beg, end, cond, inc, loopvar, body = inner
+        self.cur.loops += 1
+        lid = self.cur.loops
+        self.blockstack.append([])
+        self.scopes.append([])
+        pre = []
+        for d in (init, rng, beg, end):
+            if d.get("kind"):
+                pre += self.stmt(d)
+        c = self.cond(cond)
+        self.no_exc_pending("range-for condition")
+        n = self.discard(inc)
+        self.no_exc_pending("range-for increment")
+        self.blockstack.append([])
+        self.scopes.append([])
+        b = self.stmt(loopvar) + self.stmt(body)
+        b += self.scope_exit_dtors(self.scopes[-1], b)
+        self.scopes.pop()
+        bt = self.blockstack.pop()
+        self.scopes.pop()
+        temps = self.blockstack.pop()
+        self.rule("range-for")
+        return [X("block", temps + pre + [X("for", None, c, n, [X("block", bt + b)], lid)])]
 
     def s_WhileStmt(self, s):
         inner = s["inner"]
@@ -927,7 +1004,8 @@ class Translator:
         return []
 
     def no_exc_pending(self, where):
-        pass
+        if getattr(self, "temp_dtors", None):
+            raise ExtractionBreak("function %s: temporary with destructor in a %s" % (self.cur.cname, where))
 
     # ------------------------------------------------------------ expressions
     def ety(self, e):
@@ -1019,7 +1097,18 @@ class Translator:
         return self.rv(e["inner"][0])
 
     def bind_temporary(self, e):
-        raise ExtractionBreak("function %s: temporary with non-trivial destructor" % self.cur.cname)
+        """prvalue temporary with a destructor used as a value: park it in a temp, destroy at end of full-expression"""
+        ty = self.ety(e)
+        t = self.newtmp(ty)
+        sub = e["inner"][0]
+        s2 = self.skip_wrappers(sub)
+        if ty.kind == "rec" and s2.get("kind") in ("CXXConstructExpr", "CXXTemporaryObjectExpr"):
+            st = self.construct_into(addr(t), s2)
+            r = X("sexpr", st, t, ty=ty)
+        else:
+            r = X("comma", X("assign", "=", t, self.rv(sub)), t, ty=ty)
+        self.register_temp_dtor(t, self.ast.E[e["id"]]["dtor"], ty)
+        return r
 
     def e_CXXThisExpr(self, e):
         return X("var", "self", ty=self.this_ty)
@@ -1253,21 +1342,40 @@ class Translator:
         raise ExtractionBreak("cast kind %s" % ck)
 
     def derived_to_base(self, e, sub, ty):
-        path = e.get("path", [])
-        # sub is glvalue of derived (or pointer prvalue to derived)
         subty = self.ety(sub)
         is_ptr = subty.kind == "ptr"
         obj = deref(self.rv(sub)) if is_ptr else self.lv(sub)
+        dname = (subty.to if is_ptr else subty).name
+        tname = (ty.to if ty.kind == "ptr" else ty).name
+        path = self.base_path(dname, tname)
+        if path is None:
+            raise ExtractionBreak("no base path from '%s' to '%s'" % (dname, tname))
         cur = obj
-        for p in path:
-            nm = p["name"]
-            canon = self.resolve_record_name(nm)
+        for canon in path:
             brid = self.ast.Rname[canon]
             if "empty" in self.ast.R[brid]:
-                raise ExtractionBreak("cast to empty base '%s'" % nm)
+                raise ExtractionBreak("cast to empty base '%s'" % canon)
+            self.need_record(canon)
             cur = X("mem", cur, "__base_" + self.record_cname(canon), ty=Ty("rec", name=canon))
         self.rule("derived->base")
         return addr(cur) if is_ptr else cur
+
+    def direct_bases(self, canon):
+        rid = self.ast.Rname.get(canon)
+        node = self.ast.nodes.get(rid) if rid else None
+        out = []
+        for b in (node or {}).get("bases", []):
+            out.append(self._canon_of_base(b))
+        return out
+
+    def base_path(self, dname, tname):
+        if dname == tname:
+            return []
+        for b in self.direct_bases(dname):
+            p = self.base_path(b, tname)
+            if p is not None:
+                return [b] + p
+        return None
 
     def base_to_derived(self, e, sub, ty):
         # only valid when base is the first member at offset 0 (checked by record layout: single non-empty base first)
@@ -1298,6 +1406,19 @@ class Translator:
         ty = self.ety(e)
         t = self.newtmp(ty)
         self.rule("materialize")
+        bt = sub
+        while bt.get("kind") in ("ImplicitCastExpr",) and bt.get("castKind") == "NoOp":
+            bt = bt["inner"][0]
+        if bt.get("kind") == "CXXBindTemporaryExpr" and "dtor" in self.ast.E.get(bt["id"], {}):
+            inner = bt["inner"][0]
+            s3 = self.skip_wrappers(inner)
+            if ty.kind == "rec" and s3.get("kind") in ("CXXConstructExpr", "CXXTemporaryObjectExpr"):
+                st = self.construct_into(addr(t), s3)
+                r = deref(X("sexpr", st, addr(t), ty=Ty("ptr", to=ty)))
+            else:
+                r = deref(X("comma", X("assign", "=", t, self.rv(inner)), addr(t), ty=Ty("ptr", to=self.lower(ty))))
+            self.register_temp_dtor(t, self.ast.E[bt["id"]]["dtor"], ty)
+            return r
         s2 = self.skip_wrappers(sub)
         if ty.kind == "rec" and s2.get("kind") in ("CXXConstructExpr", "CXXTemporaryObjectExpr"):
             st = self.construct_into(addr(t), s2)
@@ -1383,9 +1504,9 @@ class Translator:
         self.after_call(fid)
         if rt.kind == "ref":
             call.ty = self.lower(rt)
-            return deref(call)
+            return deref(self.wrap_call(fid, call))
         call.ty = rt
-        return call
+        return self.wrap_call(fid, call)
 
     def after_call(self, fid):
         pass
@@ -1497,6 +1618,15 @@ class Translator:
             return "((%s)%s)" % (a[0], self.pr(a[1]))
         if k == "call":
             return "%s(%s)" % (a[0], ", ".join(self.pr(y) for y in a[1]))
+        if k == "callx":
+            call, fname, jump, zero = a
+            inner = self.pr(call)
+            if not self.may_throw_fn(fname):
+                return inner
+            ty = call.ty
+            if ty is None or (ty.kind == "builtin" and ty.name == "void"):
+                return "({ %s; if (__verif_exc) { %s } })" % (inner, jump)
+            return "({ %s = %s; if (__verif_exc) { %s } __c; })" % (self.cdecl(ty, "__c"), inner, jump)
         if k == "icall":
             return "(%s)(%s)" % (self.pr(a[0]), ", ".join(self.pr(y) for y in a[1]))
         if k == "mem":
@@ -1524,9 +1654,12 @@ class Translator:
             return "sizeof(%s)" % a[0]
         raise ExtractionBreak("print expr " + k)
 
+    def may_throw_fn(self, fname):
+        return False
+
     def pr_post(self, x):
         s = self.pr(x)
-        if x.k in ("var", "mem", "index", "call") or (s.startswith("(") and s.endswith(")")):
+        if x.k in ("var", "mem", "index", "call", "callx") or (s.startswith("(") and s.endswith(")")):
             return s
         return "(" + s + ")"
 
